@@ -45,6 +45,19 @@ fn replay(args: &[String]) {
     let progress = &args[3];
     let out = &args[4];
     let maxv: usize = args.get(5).and_then(|s| s.parse().ok()).unwrap_or(5);
+    // discrepancy categories that bear on the property being checked ("*": all). Replay stops after maxv
+    // behaviours with a RELEVANT discrepancy; behaviours with only other discrepancies are kept (a few) as notes
+    let relevant: Vec<String> = args.get(6).map(|s| s.split(',').map(|x| x.to_string()).collect()).unwrap_or_else(|| vec!["*".into()]);
+    let is_relevant = |e: &String| -> bool {
+        if relevant.iter().any(|r| r == "*") {
+            return true;
+        }
+        match (e.find('['), e.find(']')) {
+            (Some(0), Some(j)) => relevant.iter().any(|r| r == &e[1..j]) || &e[1..j] == "harness",
+            _ => true,
+        }
+    };
+    let mut n_other = 0usize;
     let only: Option<usize> = std::env::var("TVH_ONLY_LINE").ok().and_then(|s| s.parse().ok());
 
     let f = std::fs::File::open(path).unwrap_or_else(|e| {
@@ -122,11 +135,18 @@ fn replay(args: &[String]) {
             samples.push(v.clone());
         }
         if !errs.is_empty() {
-            let _ = writeln!(viol_log, "{}", json!({"line": n_lines, "h": h, "x": x, "errors": errs}));
-            let _ = viol_log.flush();
-            violations.push(json!({"line": n_lines, "h": h, "x": x, "errors": errs}));
-            if violations.len() >= maxv {
-                break;
+            if errs.iter().any(|e| is_relevant(e)) {
+                let _ = writeln!(viol_log, "{}", json!({"line": n_lines, "h": h, "x": x, "errors": errs}));
+                let _ = viol_log.flush();
+                violations.push(json!({"line": n_lines, "h": h, "x": x, "errors": errs}));
+                if violations.iter().filter(|v| v["errors"].as_array().map(|a| a.iter().any(|e| is_relevant(&e.as_str().unwrap_or("").to_string()))).unwrap_or(false)).count() >= maxv {
+                    break;
+                }
+            } else {
+                n_other += 1;
+                if n_other <= 3 {
+                    violations.push(json!({"line": n_lines, "h": h, "x": x, "errors": errs}));
+                }
             }
         }
     }
